@@ -44,7 +44,7 @@ package lock
 //@        (emits Redirect(?ro) -> ?re :: result.1 == re && ro.Code == 307 && ro.RedirectPath == l.Config.Paths.LockNotOK &&
 //@            ro.Failure == loc(l.Authboss, TxtLocked) && ro.Success == "" && ro.FollowRedirParam == false &&
 //@            !(before Redirect(_)) && !(after Redirect(_))) &&
-//@        !emits Respond(_, _, _) && !emits Sess.Put(_, _) && !emits Sess.Del(_) && !emits Cook.Put(_, _) && !emits Cook.Del(_) &&
+//@        !emits Respond(_, _, _) && !emits Sess.Put(_, _) && !emits Sess.Del(_) && !emits Sess.DelAll(_) && !emits Cook.Put(_, _) && !emits Cook.Del(_) &&
 //@        !emits HeaderSet(_, _, _) && !emits WriteHeader(_, _) && !emits Write(_, _) && !emits HTTPRedirect(_, _, _))
 //@
 //@ func (*Lock).BeforeAuth
@@ -56,7 +56,7 @@ package lock
 //@        (emits Redirect(?ro) -> ?re :: result.1 == re && ro.Code == 307 && ro.RedirectPath == l.Config.Paths.LockNotOK &&
 //@            ro.Failure == loc(l.Authboss, TxtLocked) && ro.Success == "" && ro.FollowRedirParam == false &&
 //@            !(before Redirect(_)) && !(after Redirect(_))) &&
-//@        !emits Respond(_, _, _) && !emits Sess.Put(_, _) && !emits Sess.Del(_) && !emits Cook.Put(_, _) && !emits Cook.Del(_) &&
+//@        !emits Respond(_, _, _) && !emits Sess.Put(_, _) && !emits Sess.Del(_) && !emits Sess.DelAll(_) && !emits Cook.Put(_, _) && !emits Cook.Del(_) &&
 //@        !emits HeaderSet(_, _, _) && !emits WriteHeader(_, _) && !emits Write(_, _) && !emits HTTPRedirect(_, _, _))
 //@   ensures[C03] veto_locked: (result.0 == false && result.1 == nil) ==>
 //@       emits Store.Save(?s) -> _ :: emits Now() -> ?t :: final(Locked(s)) <= t && each Now() -> ?t2 => t2 <= t
@@ -77,12 +77,12 @@ package lock
 //@        (emits Redirect(?ro) -> ?re :: result.1 == re && ro.Code == 307 && ro.RedirectPath == l.Config.Paths.LockNotOK &&
 //@            ro.Failure == loc(l.Authboss, TxtLocked) && ro.Success == "" && ro.FollowRedirParam == false &&
 //@            !(before Redirect(_)) && !(after Redirect(_))) &&
-//@        !emits Respond(_, _, _) && !emits Sess.Put(_, _) && !emits Sess.Del(_) && !emits Cook.Put(_, _) && !emits Cook.Del(_) &&
+//@        !emits Respond(_, _, _) && !emits Sess.Put(_, _) && !emits Sess.Del(_) && !emits Sess.DelAll(_) && !emits Cook.Put(_, _) && !emits Cook.Del(_) &&
 //@        !emits HeaderSet(_, _, _) && !emits WriteHeader(_, _) && !emits Write(_, _) && !emits HTTPRedirect(_, _, _))
 //@   -- C16(c): a failure that does not lock the account (and was not locked) adds nothing
 //@   -- a client could observe
 //@   ensures[C16] unlocked_failure_silent: (!panics && (emits Store.Save(?s) -> ?e :: e == nil && (each Now() -> ?t => Locked(s) <= t))) ==>
-//@       (result.0 == false && result.1 == nil && !emits Redirect(_) && !emits Respond(_, _, _) && !emits Sess.Put(_, _) && !emits Sess.Del(_) &&
+//@       (result.0 == false && result.1 == nil && !emits Redirect(_) && !emits Respond(_, _, _) && !emits Sess.Put(_, _) && !emits Sess.Del(_) && !emits Sess.DelAll(_) &&
 //@        !emits Cook.Put(_, _) && !emits Cook.Del(_) && !emits HeaderSet(_, _, _) && !emits WriteHeader(_, _) && !emits Write(_, _) && !emits HTTPRedirect(_, _, _))
 //@   -- C04: every failure is recorded, also against an account that is already locked (it
 //@   -- re-triggers the lock)
@@ -110,6 +110,11 @@ package lock
 //@                                   (emits Events.Register("Before", EventOAuth2, ?h2) :: fname(h2) == "(*Lock).BeforeAuth")
 //@   ensures[C04] registered_after: (emits Events.Register("After", EventAuth, ?h) :: fname(h) == "(*Lock).AfterAuthSuccess") &&
 //@                                  (emits Events.Register("After", EventAuthFail, ?h2) :: fname(h2) == "(*Lock).AfterAuthFail")
+//@   -- the count is only reset by what the statement names (a successful login): the reset handler
+//@   -- hangs on the after-auth event and nowhere else, the failure handler on after-auth-fail only
+//@   ensures[C04] only_expected_hooks: each Events.Register(?when, ?ev, ?h) =>
+//@       ((fname(h) == "(*Lock).AfterAuthSuccess" ==> (when == "After" && ev == EventAuth)) &&
+//@        (fname(h) == "(*Lock).AfterAuthFail" ==> (when == "After" && ev == EventAuthFail)))
 //@
 //@ func Middleware#1#1
 //@   property C03 C18 C17
